@@ -275,20 +275,20 @@ theorem discovered_perm {pop pop' : List Prov} (hperm : pop.Perm pop') (hnm : (p
     | none => exact List.Perm.refl _
     | some f => exact ((hperm.filter _).map _).filterMap _
 
-theorem admitted_perm {pop pop' : List Prov} (hperm : pop.Perm pop') (hid : (pop.map (·.id)).Nodup)
+theorem qualified_perm {pop pop' : List Prov} (hperm : pop.Perm pop') (hid : (pop.map (·.id)).Nodup)
     (hnm : (pop.map (·.name)).Nodup) (s : Slot) (v : Bytes) (a0 : Args) :
-    (admitted pop s v a0).Perm (admitted pop' s v a0) := by
-  unfold admitted
+    (qualified pop s v a0).Perm (qualified pop' s v a0) := by
+  unfold qualified
   rw [← byId_perm hperm hid]
   exact qualFilter_perm _ _ (discovered_perm hperm hnm s v _)
 
 theorem survivorsOf_perm {pop pop' : List Prov} (hperm : pop.Perm pop') (hid : (pop.map (·.id)).Nodup)
     (hnm : (pop.map (·.name)).Nodup) (s : Slot) (v : Bytes) (a0 : Args) :
     (survivorsOf pop s v a0).Perm (survivorsOf pop' s v a0) :=
-  selfRemoved_perm _ (admitted_perm hperm hid hnm s v a0)
+  selfRemoved_perm _ (qualified_perm hperm hid hnm s v a0)
 
 theorem picked_single (pop : List Prov) (s : Slot) (v : Bytes) (a0 : Args) (hs : s.kind.isSlice = false) :
-    (admitted pop s v a0 = [] ∧ picked pop s v a0 = []) ∨
+    (qualified pop s v a0 = [] ∧ picked pop s v a0 = []) ∨
     (∃ c, choose (byId pop) (survivorsOf pop s v a0) = some c ∧ picked pop s v a0 = [c]) := by
   unfold picked
   rw [hs]
@@ -310,9 +310,9 @@ theorem selfRemoved_subset (holder : Nat) (l : List Nat) : ∀ c ∈ selfRemoved
   · exact hc
   · exact (List.mem_filter.mp hc).1
 
-/-- whatever is injected was admitted by the qualifier filter -/
-theorem picked_subset_admitted (pop : List Prov) (s : Slot) (v : Bytes) (a0 : Args) :
-    ∀ c ∈ picked pop s v a0, c ∈ admitted pop s v a0 := by
+/-- whatever is injected was qualified by the qualifier filter -/
+theorem picked_subset_qualified (pop : List Prov) (s : Slot) (v : Bytes) (a0 : Args) :
+    ∀ c ∈ picked pop s v a0, c ∈ qualified pop s v a0 := by
   intro c hc
   cases hs : s.kind.isSlice
   · rcases picked_single pop s v a0 hs with ⟨_, h⟩ | ⟨d, hd, h⟩
